@@ -320,6 +320,12 @@ def simulate(rng, tmp, p):
         sim.windows[c] = windows
         refseq = random_reference(rng, L)
         vs = random_variants(rng, refseq, p.get("n_var", 12), kinds, p.get("min_gap", 30), p.get("margin", 40), p.get("allow_shiftable", True), windows=windows)
+        if p.get("shared_positions") and c != sim.chroms[0] and not p.get("companions") and not p.get("covering_deletions"):
+            # the same sequence and the same variant records on every contig (coordinates recur across contigs); haplotypes differ
+            import copy as _copy
+
+            refseq = sim.ref[sim.chroms[0]]
+            vs = [_copy.copy(v) for v in sim.variants[sim.chroms[0]]]
         if p.get("companions"):
             # unrelated (never in the VCF) indels 1-7 reference bases next to an SNV, on either side
             extra = []
@@ -612,6 +618,16 @@ def simulate(rng, tmp, p):
             for i in range(len(sim.variants[c])):
                 if rng.random() < p["hidden_frac"]:
                     sim.hidden[c].add(i)
+    if p.get("chain_contigs") and p.get("shared_positions") and len(sim.chroms) > 1 and not p.get("companions") and not p.get("covering_deletions"):
+        # contig i lists the variants k_i .. k_(i+1) of the shared list only: the first record of a contig has the POS of the last
+        # record of the contig before it
+        n = len(sim.variants[sim.chroms[0]])
+        if n >= 2 * len(sim.chroms):
+            cuts = [0] + sorted(rng.sample(range(1, n - 1), len(sim.chroms) - 1)) + [n - 1]
+            for ci, c in enumerate(sim.chroms):
+                for i in range(n):
+                    if not (cuts[ci] <= i <= cuts[ci + 1]):
+                        sim.hidden[c].add(i)
     for c in sim.chroms:
         for i, v in enumerate(sim.variants[c]):
             if v.hid:
@@ -688,7 +704,8 @@ def truth_phased_doc(sim, rng, tag="PS", block_len=(3, 8), samples=None, interle
     for s in samples:
         si = d.samples.index(s)
         for c in sim.chroms:
-            state = [None, None]  # up to two interleaved series: [block_id, remaining, flip]
+            nser = 1 if not interleave else (2 if interleave is True else int(interleave))
+            state = [None] * max(2, nser)  # interleaved series of blocks: [block_id, remaining, flip]
             for r in d.records:
                 if r["chrom"] != c:
                     continue
@@ -697,7 +714,7 @@ def truth_phased_doc(sim, rng, tag="PS", block_len=(3, 8), samples=None, interle
                 call = r["calls"][si]
                 if a0 == a1 or "." in call["GT"]:
                     continue
-                k = rng.randint(0, 1) if interleave else 0
+                k = rng.randrange(nser) if interleave else 0
                 st = state[k]
                 if no_ps:
                     # '|' genotypes without any PS field: one unnamed phase set (0) per chromosome
